@@ -118,6 +118,18 @@ class Func:
         return "%s.%s" % (self.cls.name, self.name) if self.cls else self.name
 
     @property
+    def is_noop(self):
+        """A body of nothing but a docstring, `pass` and bare returns: calling it neither reads nor changes anything (used e.g. as a
+        typed probe that lets Numba reject a badly typed argument)."""
+        for s in self.node.body:
+            if isinstance(s, ast.Pass) or (isinstance(s, ast.Expr) and isinstance(s.value, ast.Constant)):
+                continue
+            if isinstance(s, ast.Return) and (s.value is None or (isinstance(s.value, ast.Constant) and s.value.value is None)):
+                continue
+            return False
+        return True
+
+    @property
     def file(self):
         return self.module.relpath
 
@@ -268,8 +280,9 @@ class Model:
         from .normalize import canonicalise_anchor_functions, canonicalise_kernel_params
         pk = {k: v for k, v in trees.items() if k not in ("hll_constants", "hll_bias_experiment")}
         self.renamed_anchors = canonicalise_anchor_functions(pk)
-        from .normalize import positionalise_kernel_calls
+        from .normalize import positionalise_kernel_calls, positionalise_python_calls
         positionalise_kernel_calls(pk)
+        positionalise_python_calls(pk)
         canonicalise_kernel_params(pk)
         for short, text in sources.items():
             self.modules[short] = Module(short, "%s/%s.py" % (PKG, short), text, tree=trees[short])
